@@ -36,6 +36,7 @@ type HandleObs struct {
 	C0   []int  `json:"c0"`
 	C1   []int  `json:"c1"`
 	C2   []int  `json:"c2"`
+	C3   []int  `json:"c3"`
 	Dd   bool   `json:"dd"`   // collection c1 has the design document
 	Has1 bool   `json:"has1"` // ListDataStores lists collection c1
 }
@@ -56,6 +57,7 @@ type LifeLine struct {
 	Names []string               `json:"names"`
 	Dirs  map[string]bool        `json:"dirs"`
 	Gor   int                    `json:"gor"`
+	Pre   bool                   `json:"pre"` // reset line: the bucket directories exist already (empty)
 }
 
 var lifeHandles = []string{"h1", "h2", "h3", "h4"}
@@ -105,6 +107,9 @@ func classifyOpen(err error) string {
 }
 
 func lifeColl(c string) sgbucket.DataStoreName {
+	if c == "c3" {
+		return sgbucket.DataStoreNameImpl{Scope: "t", Collection: "c1"} // the same collection name as c1, in another scope
+	}
 	if c == "c0" || c == "c2" {
 		return dsName(c)
 	}
@@ -144,6 +149,9 @@ func withTimeout(d time.Duration, f func() (string, error)) (cls string, errText
 func (lr *lifeRun) exec(a *LifeAct) (string, string) {
 	ctx := context.Background()
 	return withTimeout(4*time.Second, func() (string, error) {
+		if a.Kind != "Open" && a.Kind != "StopFeed" && a.Kind != "Close" && lr.hs[a.H] == nil {
+			return "nohandle", nil // the open that should have produced this handle was refused
+		}
 		switch a.Kind {
 		case "Open":
 			mode := rosmar.OpenMode(rosmar.CreateOrOpen)
@@ -221,7 +229,10 @@ func (lr *lifeRun) exec(a *LifeAct) (string, string) {
 				}
 			case "multi":
 				if _, err = b.NamedDataStore(lifeColl("c1")); err == nil {
-					args.Scopes = map[string][]string{"_default": {"_default"}, "s": {"c1"}}
+					_, err = b.NamedDataStore(lifeColl("c3"))
+				}
+				if err == nil {
+					args.Scopes = map[string][]string{"_default": {"_default"}, "s": {"c1"}, "t": {"c1"}}
 					err = b.StartDCPFeed(ctx, args, cb, nil)
 				}
 			case "bucket":
@@ -234,17 +245,31 @@ func (lr *lifeRun) exec(a *LifeAct) (string, string) {
 			}
 			if err == nil {
 				lr.fd[a.F] = lf
+				ended := make(chan struct{})
 				go func() {
 					<-lf.done
 					lf.mu.Lock()
 					lf.ended = true
 					lf.mu.Unlock()
+					close(ended)
 				}()
+				if args.Dump {
+					// a dump ends by itself: give it time to (an observation taken too early would call it "not ended")
+					select {
+					case <-ended:
+					case <-time.After(3 * time.Second):
+					}
+				}
 			}
 			return classify(err), err
 		case "StopFeed":
 			if lf := lr.fd[a.F]; lf != nil {
 				close(lf.term)
+				// the feed ends asynchronously: wait for its done channel (bounded)
+				select {
+				case <-lf.done:
+				case <-time.After(3 * time.Second):
+				}
 			}
 			return "ok", nil
 		}
@@ -253,13 +278,13 @@ func (lr *lifeRun) exec(a *LifeAct) (string, string) {
 }
 
 func (lr *lifeRun) probe(b *rosmar.Bucket) HandleObs {
-	o := HandleObs{Cls: "ok", C0: []int{}, C1: []int{}, C2: []int{}}
+	o := HandleObs{Cls: "ok", C0: []int{}, C1: []int{}, C2: []int{}, C3: []int{}}
 	cls, _ := withTimeout(3*time.Second, func() (string, error) {
 		names, err := b.ListDataStores()
 		if err != nil {
 			return classify(err), err
 		}
-		for _, c := range []string{"c0", "c1", "c2"} {
+		for _, c := range []string{"c0", "c1", "c2", "c3"} {
 			present := false
 			for _, n := range names {
 				if n.ScopeName() == lifeColl(c).ScopeName() && n.CollectionName() == lifeColl(c).CollectionName() {
@@ -292,6 +317,8 @@ func (lr *lifeRun) probe(b *rosmar.Bucket) HandleObs {
 						o.C0 = append(o.C0, id)
 					case "c1":
 						o.C1 = append(o.C1, id)
+					case "c3":
+						o.C3 = append(o.C3, id)
 					default:
 						o.C2 = append(o.C2, id)
 					}
@@ -325,14 +352,14 @@ func (lr *lifeRun) feedCounts() map[string][2]int {
 func (lr *lifeRun) settle() {
 	last := fmt.Sprint(lr.feedCounts(), rosmar.VerifActiveFeedCount())
 	stableSince := time.Now()
-	deadline := time.Now().Add(150 * time.Millisecond)
+	deadline := time.Now().Add(600 * time.Millisecond)
 	for time.Now().Before(deadline) {
 		time.Sleep(2 * time.Millisecond)
 		cur := fmt.Sprint(lr.feedCounts(), rosmar.VerifActiveFeedCount())
 		if cur != last {
 			last = cur
 			stableSince = time.Now()
-		} else if time.Since(stableSince) > 12*time.Millisecond {
+		} else if time.Since(stableSince) > 25*time.Millisecond {
 			return
 		}
 	}
@@ -345,7 +372,7 @@ func (lr *lifeRun) observe(line *LifeLine, prevN map[string]int, baseGor int) {
 		if b := lr.hs[h]; b != nil {
 			line.Hs[h] = lr.probe(b)
 		} else {
-			line.Hs[h] = HandleObs{Cls: "none", C0: []int{}, C1: []int{}, C2: []int{}}
+			line.Hs[h] = HandleObs{Cls: "none", C0: []int{}, C1: []int{}, C2: []int{}, C3: []int{}}
 		}
 	}
 	line.Fd = map[string]FeedLifeObs{}
@@ -439,13 +466,22 @@ func cmdLife(args []string) error {
 		lr := &lifeRun{tr: bi + 1, scratch: filepath.Join(*scratch, fmt.Sprintf("life_%d_%d", os.Getpid(), bi)),
 			hs: map[string]*rosmar.Bucket{}, fd: map[string]*lifeFeed{}}
 		os.MkdirAll(lr.scratch, 0755)
+		if bi%2 == 1 {
+			// every other behaviour finds the bucket directories already there, empty: a directory is not a bucket
+			for _, n := range lifeNames {
+				for _, u := range []string{"d1", "d2"} {
+					os.MkdirAll(strings.TrimPrefix(lr.url(n, u), "rosmar://"), 0755)
+				}
+			}
+		}
 		prevN := map[string]int{}
+		abandonedNow := false
 		// feed goroutines of the previous behaviour end asynchronously after its cleanup: wait for them
 		for w := 0; w < 400 && rosmar.VerifActiveFeedCount() != 0; w++ {
 			time.Sleep(5 * time.Millisecond)
 		}
 		baseGor := int(rosmar.VerifActiveFeedCount())
-		reset := LifeLine{K: "reset", Tr: bi + 1, Act: LifeAct{Kind: "-", H: "h1", N: "-", U: "-", Mode: "-", C: "-", F: "-", Fk: "-"}, Res: "ok"}
+		reset := LifeLine{K: "reset", Tr: bi + 1, Pre: bi%2 == 1, Act: LifeAct{Kind: "-", H: "h1", N: "-", U: "-", Mode: "-", C: "-", F: "-", Fk: "-"}, Res: "ok"}
 		lr.observe(&reset, prevN, baseGor)
 		enc.Encode(reset)
 		nlines++
@@ -463,8 +499,19 @@ func cmdLife(args []string) error {
 			nlines++
 			if line.Res == "hang" || line.Res == "panic" {
 				abandoned++
+				abandonedNow = true
 				break // the bucket may be wedged: abandon this behaviour
 			}
+		}
+		// two more observations after a pause: what is asynchronous (events, done channels, runner goroutines) has
+		// had time to happen, and a deviation that is still there is there to stay
+		for k := 0; k < 2 && abandonedNow == false; k++ {
+			time.Sleep(time.Duration(150-50*k) * time.Millisecond)
+			line := LifeLine{K: "act", Tr: bi + 1, I: len(behs[bi]) + 1 + k, Res: "ok",
+				Act: LifeAct{Kind: "Settle", H: "h1", N: "-", U: "-", Mode: "-", C: "-", F: "-", Fk: "-", ID: len(behs[bi]) + 1 + k}}
+			lr.observe(&line, prevN, baseGor)
+			enc.Encode(line)
+			nlines++
 		}
 		lr.cleanup()
 	}
